@@ -29,13 +29,13 @@ static int in_domain(uint64_t N, const int64_t* a, const int64_t* b) {
   long double x = na.n1 * nb.ninf, y = na.ninf * nb.n1;
   return (x < y ? x : y) < 0x1p52L * (1 - 0x1p-40L);
 }
-static long double budget_E(uint64_t N, const int64_t* a, const int64_t* b) {
+long double c01_budget_E(uint64_t N, const int64_t* a, const int64_t* b) {
   norms_t na = norms(N, a), nb = norms(N, b);
   return 8.0L * (long double)ilog2(N) * 0x1p-53L * (na.n1 * nb.n2 + na.n2 * nb.n1);
 }
 
 // generate an operand pair inside the documented domain
-static void gen_pair(rng_t* r, int fam, uint64_t N, int64_t* a, int64_t* b) {
+void c01_gen_pair(rng_t* r, int fam, uint64_t N, int64_t* a, int64_t* b) {
   const unsigned lg = ilog2(N);
   memset(a, 0, N * 8);
   memset(b, 0, N * 8);
@@ -138,7 +138,7 @@ static void gen_pair(rng_t* r, int fam, uint64_t N, int64_t* a, int64_t* b) {
         b[i] = (rng_u64(r) & 1) ? B : -B;
       }
       // shrink until E < 1/2 and the domain holds
-      for (int it = 0; it < 200 && (!in_domain(N, a, b) || budget_E(N, a, b) >= 0.4995L); it++)
+      for (int it = 0; it < 200 && (!in_domain(N, a, b) || c01_budget_E(N, a, b) >= 0.4995L); it++)
         for (uint64_t i = 0; i < N; i++) b[i] -= b[i] / 16 + (b[i] > 0 ? 1 : (b[i] < 0 ? -1 : 0)) * (llabs(b[i]) > 1);
       break;
     }
@@ -154,7 +154,7 @@ static void gen_pair(rng_t* r, int fam, uint64_t N, int64_t* a, int64_t* b) {
 }
 
 static void check_product(const char* what, uint64_t N, const int64_t* a, const int64_t* b, const int64_t* got, i128* exact) {
-  long double E = budget_E(N, a, b);
+  long double E = c01_budget_E(N, a, b);
   long double tol = (E + 0.5L) * (1 + 0x1p-40L);
   negacyclic_exact(N, a, b, exact);
   long double worst = 0;
@@ -187,7 +187,7 @@ static void small_product_case(uint64_t N, int fam, int native, unsigned rep) {
   uint8_t* tmp = gb_alloc(&gt, tb, 8, 8 * ((rep + 3) % 8), 4096);
   gb_prefill(&gt, 2, 0);
   gb_prefill(&gr, (int)rep, 5);
-  gen_pair(crng(), fam, N, a, b);
+  c01_gen_pair(crng(), fam, N, a, b);
   snap_t sa, sb;
   snap_take(&sa, a, N * 8);
   snap_take(&sb, b, N * 8);
@@ -199,7 +199,7 @@ static void small_product_case(uint64_t N, int fam, int native, unsigned rep) {
   if (gb_check(&ga, &wh) || gb_check(&gb, &wh) || gb_check(&gr, &wh) || gb_check(&gt, &wh)) viol("canary", "znx_small_single_product wrote outside a buffer (%ld)", wh);
   int nz = 0;
   for (uint64_t i = 0; i < N; i++) nz |= (a[i] != 0) << 0 | (b[i] != 0) << 1;
-  sample("E=%.3Lg", budget_E(N, a, b));
+  sample("E=%.3Lg", c01_budget_E(N, a, b));
   cntf("N:%" PRIu64, 1, N);
   free(exact);
   gb_free(&ga);
@@ -228,7 +228,7 @@ static void svp_case(uint64_t N, int fam, int native, int tmp_a, uint64_t res_si
   gb_prefill(&gbig, (int)rep + 1, 2);
   // all limbs of a share the operand b: generate b with the first limb, other limbs re-drawn against the same b
   int64_t* a0 = malloc(N * 8);
-  gen_pair(r, fam, N, a0, b);
+  c01_gen_pair(r, fam, N, a0, b);
   for (uint64_t l = 0; l < a_size; l++) {
     int64_t* al = zvec_limb(&A, l);
     if (l == 0)
@@ -272,7 +272,7 @@ static void svp_case(uint64_t N, int fam, int native, int tmp_a, uint64_t res_si
   long wh;
   if (zvec_check(&A, msg, sizeof msg)) viol("canary", "a: %s", msg);
   if (gb_check(&gb, &wh) || gb_check(&gp, &wh) || gb_check(&gd, &wh) || gb_check(&gbig, &wh) || gb_check(&gt, &wh)) viol("canary", "svp path wrote outside an object sized by bytes_of_*() (%ld)", wh);
-  sample("E=%.3Lg rows=%" PRIu64, a_size ? budget_E(N, a0, b) : 0.0L, res_size);
+  sample("E=%.3Lg rows=%" PRIu64, a_size ? c01_budget_E(N, a0, b) : 0.0L, res_size);
   cntf("N:%" PRIu64, 1, N);
   int nz = 0;
   for (uint64_t i = 0; i < N; i++) nz |= (a0[i] != 0) << 0 | (b[i] != 0) << 1;
@@ -297,7 +297,7 @@ static void greedy_case(uint64_t N, int native, unsigned rep) {
   int64_t* res = malloc(N * 8);
   i128* exact = malloc(N * 16);
   uint8_t* tmp = malloc(znx_small_single_product_tmp_bytes(mod) + 64);
-  gen_pair(r, F_ALLMAX, N, a, b);
+  c01_gen_pair(r, F_ALLMAX, N, a, b);
   long double best = -1;
   for (int it = 0; it < 200; it++) {
     uint64_t i = (uint64_t)rng_range(r, 0, (int64_t)N - 1);
@@ -305,7 +305,7 @@ static void greedy_case(uint64_t N, int native, unsigned rep) {
     int64_t* v = which ? b : a;
     v[i] = -v[i];
     znx_small_single_product(mod, res, a, b, tmp);
-    long double E = budget_E(N, a, b), worst = 0;
+    long double E = c01_budget_E(N, a, b), worst = 0;
     negacyclic_exact(N, a, b, exact);
     for (uint64_t j = 0; j < N; j++) {
       long double ad = fabsl((long double)((i128)res[j] - exact[j]));
